@@ -53,7 +53,7 @@ def c06(chk, opts):
     if nct < 2 * 2314:
         raise ToolError("recorder produced %d constructed-token events, expected at least %d" % (nct, 2 * 2314))
     # range half
-    args = ["--family", "rows,partial,random,big,negzero", "--rows-exhaustive", 8 if thorough else 7, "--rows-samples", 400 if thorough else 120,
+    args = ["--family", "rows,partial,random,big,negzero,tiny", "--rows-exhaustive", 8 if thorough else 7, "--rows-samples", 400 if thorough else 120,
             "--partial-pairs", 14 if thorough else 6, "--partial-random", 200 if thorough else 60, "--random", 3000 if thorough else 900, "--orders", 2]
     trace = _record(chk, args)
     r, events, bad = validate_independent(chk, "TraceFmt", trace, "TraceFmt(C06 round trip)", cfg="TraceFmtC06.cfg", heap="10g", timeout=3000)
@@ -111,7 +111,7 @@ def c17(chk, opts):
         raise ToolError("RangeBuild printed %d histories" % len(set(hists)))
     hf = chk.path("histories.ndjson")
     open(hf, "w").write("\n".join(sorted(set(hists), key=lambda h: (len(h), h))) + "\n")
-    args = ["--family", "rows,random,big,hist", "--histories", hf, "--hist-stride", 2 if thorough else 7, "--rows-exhaustive", 7 if thorough else 6,
+    args = ["--family", "rows,random,big,hist,tiny", "--histories", hf, "--hist-stride", 2 if thorough else 7, "--rows-exhaustive", 7 if thorough else 6,
             "--rows-samples", 300 if thorough else 80, "--random", 600 if thorough else 500, "--orders", 16 if thorough else 6]
     trace = _record(chk, args)
     r, events, bad = validate_independent(chk, "TraceFmt", trace, "TraceFmt(C17 canonical text)", cfg="TraceFmtC17.cfg", heap="12g", timeout=3000)
